@@ -103,7 +103,7 @@ theorem updateLoop_inv (htr : TransformOK) : ∀ (data m : List UInt8) (p : Sha)
     have hmb : m ++ b :: data = (m ++ [b]) ++ data := by simp
     have hlen' : (m ++ [b]).length + data.length < 2 ^ 64 := by
       simp only [List.length_cons, List.length_append, List.length_nil] at hlen ⊢; omega
-    simp only [updateLoop, hcur, hbuf, set_mid]
+    simp only [updateLoop, hcur, hbuf, wr_mid]
     simp only [List.length_cons] at hsz
     by_cases hc : tail.length + 1 = 64
     · simp only [hc, if_true]
